@@ -1758,9 +1758,6 @@ class FloodFillSubsetState(MaskSubsetState):
         ``start_value`` is the value of the data at ``start_coords``.
     """
 
-    # TODO: we need to recompute the mask if the numerical values of the
-    # data changes.
-
     def __init__(self, data, att, start_coords, threshold):
 
         if len(start_coords) != data.ndim:
@@ -1823,9 +1820,9 @@ class FloodFillSubsetState(MaskSubsetState):
         self._threshold = value
 
     def _compute_mask(self):
-        mask = floodfill(self.data[self.att],
-                         self.start_coords, self.threshold)
-        self._mask_cache = (self._hash, mask)
+        values = self.data[self.att]
+        mask = floodfill(values, self.start_coords, self.threshold)
+        self._mask_cache = (self._hash, values, mask)
 
     @property
     def _hash(self):
@@ -1833,9 +1830,11 @@ class FloodFillSubsetState(MaskSubsetState):
 
     @property
     def mask(self):
-        if self._mask_cache[0] != self._hash:
+        # Recompute if the parameters changed, or if the values of the data
+        # were replaced (Data.update_components assigns a new array).
+        if self._mask_cache[0] != self._hash or self._mask_cache[1] is not self.data[self.att]:
             self._compute_mask()
-        return self._mask_cache[1]
+        return self._mask_cache[2]
 
     @property
     def attributes(self):
